@@ -254,20 +254,18 @@ fn probe_f6() -> bool {
 
 fn main() {
     let mut ctx = Ctx::from_env("C35");
-    let f6_fixed = probe_f6();
-    ctx.notes.push(if f6_fixed {
-        "D60: function body blocks carry byte spans; the nesting hypothesis of the hover-search theorem (`spantree wfi`) is checked on every file and hover on function headers (keyword, parentheses, arrow) must report nothing".to_string()
-    } else {
-        "D60: parse_func_def still uses the token index as the byte offset of the body block (its span starts before the function), so the nesting hypothesis of the hover-search theorem does not hold on parser output; the unconditional theorem C35_searchI_spec_unconditional applies; `spantree wfi` and the header hover probes join the stream once the fix lands".to_string()
-    });
-    let task_ok = probe_task();
-    let d12_ok = probe_d12();
-    ctx.notes.push(format!(
-        "adaptive probes: task blocks {} (D45), non-ASCII text {} (D12)",
-        if task_ok { "answer, in the stream" } else { "still panic, kept out of the stream" },
-        if d12_ok { "gives byte ranges, in the stream" } else { "still shifts ranges, kept out of the stream" }
-    ));
-    let opts = Opts { task_blocks: task_ok, non_ascii: d12_ok };
+    // D45 / D12 / D60 have landed: their probes are hard regression inputs, and the shapes are always in the stream
+    if !probe_task() {
+        ctx.spec_fail("regression of D45: definition_at / type_at panic inside a task block: \"let q = 1\\ntask {\\n  println(q)\\n}\\n\" at offset 27".to_string());
+    }
+    if !probe_d12() {
+        ctx.spec_fail("regression of D12: definition_at after non-ASCII text does not return the byte range of the declaration: \"let s = \\\"é日\\\"\\nlet y = 1\\nprintln(y)\\n\"".to_string());
+    }
+    if !probe_f6() {
+        ctx.spec_fail("regression of D60: a function body block's span does not start at its brace (diagnostic range / hover on the header): \"// a comment line to push offsets up\\nfn f(a: string) -> int {\\n  let x = 1\\n}\\n\"".to_string());
+    }
+    let f6_fixed = true;
+    let opts = Opts { task_blocks: true, non_ascii: true };
     let n = if ctx.quick() { 500 } else { 6000 };
     let mut jobs = vec![];
     for idx in 0..n {
